@@ -59,7 +59,7 @@ def case_text(spec, rng):
         if spec.get("form") == "inter":
             return classes.rename(classes.packed_model_intermediates(spec["exprs"]), spec.get("rename"))
         return classes.rename(classes.packed_model(spec["exprs"]), spec.get("rename"))
-    if k == "shape":
+    if k == "shape" or spec.get("shape"):
         sp = models.gen_model(rng, Profile(), shape=spec["shape"], n_inter=spec["n_inter"], n_states=rng.choice([2, 3, 4]), depth=2)
         return sp.render(rng)
     if k == "corpus":
